@@ -191,4 +191,63 @@ def cliOnWrite (prompt : Bytes) (line : Bytes) (data : Bytes) : Bytes × Bytes :
 
 def cliDev (prompt : Bytes) : Dev Bytes := { init := [], onWrite := cliOnWrite prompt }
 
+/-! ### a timed-out operation under the thread-pool timeout (scrapli/decorators.py `_multiprocessing_timeout`)
+
+    Used for sync operations called from non-main threads, System/Telnet transports, Windows.  The
+    operation runs in a pool worker; the calling thread does `wait([future], timeout)`.  The situation
+    modelled: the worker is inside `with self._channel_lock():`, blocked in `transport.read()` on a
+    silent device, and the wait expires.  The calling thread then does two things, in the order the
+    source gives them: `_handle_timeout` (`transport.close()`, then `raise ScrapliTimeout`) and the
+    implicit join of the worker when the `with ThreadPoolExecutor(...)` block is left
+    (`shutdown(wait=True)`).  The worker's read returns (raises) only if the transport was closed and
+    closing wakes a blocked read; it then leaves the `with` block of the channel lock — the failing
+    `read` step of the model above (`finishOp`). -/
+namespace PoolTimeout
+
+inductive TAct where
+  | close    -- _handle_timeout: transport.close()         decorators.py:140
+  | join     -- leaving `with ThreadPoolExecutor`: shutdown(wait=True) joins the worker   decorators.py:106
+deriving Repr, DecidableEq
+
+/-- where the calling thread is: in `wait()`, before its first / second action, or `ScrapliTimeout`
+    has reached the user -/
+inductive CPc where
+  | waiting | first | second | raised
+deriving Repr, DecidableEq
+
+structure TOpts where
+  closeBeforeJoin : Bool   -- `_handle_timeout(...)` is called INSIDE the `with ThreadPoolExecutor` block (GENERATED from the AST)
+  closeWakes : Bool        -- transport.close() makes a blocked read of this transport raise (a property of the transport)
+deriving Repr, DecidableEq
+
+structure TSt where
+  pc : CPc := .waiting
+  closed : Bool := false
+  blocked : Bool := true   -- the worker is blocked in transport.read(), inside the channel lock context
+  lock : Bool := true      -- the channel lock is held (by the worker)
+deriving Repr, DecidableEq
+
+def plan (o : TOpts) : TAct × TAct := if o.closeBeforeJoin then (.close, .join) else (.join, .close)
+
+def doAct (s : TSt) (a : TAct) (next : CPc) : TSt :=
+  match a with
+  | .close => { s with closed := true, pc := next }
+  | .join => if s.blocked then s else { s with pc := next }     -- join returns only once the worker has ended
+
+/-- `caller = true`: the calling thread is scheduled; `false`: the worker -/
+def tstep (o : TOpts) (s : TSt) (caller : Bool) : TSt :=
+  if caller then
+    match s.pc with
+    | .waiting => { s with pc := .first }                        -- wait([future], timeout) expires
+    | .first => doAct s (plan o).1 .second
+    | .second => doAct s (plan o).2 .raised
+    | .raised => s
+  else if s.blocked && s.closed && o.closeWakes then
+    { s with blocked := false, lock := false }                   -- read raises, `with self._channel_lock()` is left
+  else s
+
+def trun (o : TOpts) (sched : List Bool) : TSt := sched.foldl (tstep o) {}
+
+end PoolTimeout
+
 end Scrapli.Lock
